@@ -153,8 +153,8 @@ CLAIMED['C15'] = dict(
 
 CLAIMED['C10'] = dict(
     category='exploration',
-    text='BOUNDED at the property level (faults-in-every-state): 26 faults -- bad marker, lengths 18 / 4097 / keepalive with a body / OPEN of 24 bytes, unknown types 9 / 200 / 252, OPERATIONAL without its capability, OPEN with version 3 / wrong AS / router-id 0.0.0.0 / hold time 1 / 2, a second OPEN, KEEPALIVE / UPDATE / ROUTE-REFRESH too early, UPDATEs with overrunning attribute or withdrawn lengths / 3-byte body / prefix length 33 / truncated MP_REACH, ROUTE-REFRESH of 3 bytes / reserved subtype -- each injected in OPENSENT, OPENCONFIRM and ESTABLISHED where RFC 4271 / 6608 / 7313 define the answer, plus a NOTIFICATION (well-formed; 20 bytes long) received in each state, API teardown 2 / 3 / 4 with and without a peer that announced graceful restart, and hold-timer expiry with a negotiated hold time of 3 s. Each case is a fresh REAL Peer._run() (real FSM, Protocol, Incoming connection, timers) over loopback TCP against a scripted remote; from the injection until close: at most one NOTIFICATION, it is the last message, nothing follows it, its code / subcode names the class, and a NOTIFICATION is never answered. Deductive obligations shared with C06 / C07 / C12 (discharged by z3): header classification 1/1, 1/2, 1/3 in Connection.reader_async / Protocol.read_message / Message.unpack, OPEN validation 2/x in Negotiated.validate, hold timer 4/0 in ReceiveTimer.check_ka_timer.',
-    note='Exploration level: the raise sites of Notify inside the UPDATE / attribute decoders (3/x subcodes) and the exception arms of Peer._run have no per-site contract (the plan of DESIGN 6 C10, a raise-site table, is not built). Cells where two classes apply (a malformed OPEN that is also out of place) accept either; an OPEN or an unnegotiated OPERATIONAL received in ESTABLISHED may be ignored (the session does not end). Closing without a NOTIFICATION when graceful restart is configured and announced by ExaBGP is taken as intended (RFC 4724) and not exercised. One genuine defect repaired (OPERATIONAL / type 252 ended the session silently).',
+    text='BOUNDED at the property level (faults-in-every-state): 26 faults -- bad marker, lengths 18 / 4097 / keepalive with a body / OPEN of 24 bytes, unknown types 9 / 200 / 252, OPERATIONAL without its capability, OPEN with version 3 / wrong AS / router-id 0.0.0.0 / hold time 1 / 2, a second OPEN, KEEPALIVE / UPDATE / ROUTE-REFRESH too early, UPDATEs with overrunning attribute or withdrawn lengths / 3-byte body / prefix length 33 / truncated MP_REACH, ROUTE-REFRESH of 3 bytes / reserved subtype -- each injected in OPENSENT, OPENCONFIRM and ESTABLISHED where RFC 4271 / 6608 / 7313 define the answer, plus a NOTIFICATION (well-formed; 20 bytes long) received in each state, API teardown 2 / 3 / 4 with and without a peer that announced graceful restart, and hold-timer expiry with a negotiated hold time of 3 s. Each case is a fresh REAL Peer._run() (real FSM, Protocol, Incoming connection, timers) over loopback TCP against a scripted remote; from the injection until close: at most one NOTIFICATION, it is the last message, nothing follows it, its code / subcode names the class, and a NOTIFICATION is never answered. STATIC (raise-site-table, complete for what it covers): every place in the source where Notify / NotifyError is built with a literal code (~244 sites, AST scan of the current tree on every run) carries the error class of its layer -- 3/x under bgp/message/update, 2/x under bgp/message/open, 7/x in refresh.py, 1/x in connection.py and message.py, 4/0 and 2/6 in the timers, 5/1 in read_open, 5/2 in read_keepalive, 6/x at teardown -- with five named exceptions (length errors 1/2 of a too-short OPEN / UPDATE; three 2/4 sites guarded by a registration check). Deductive obligations shared with C06 / C07 / C12 (discharged by z3): header classification 1/1, 1/2, 1/3 in Connection.reader_async / Protocol.read_message / Message.unpack, OPEN validation 2/x in Negotiated.validate, hold timer 4/0 in ReceiveTimer.check_ka_timer.',
+    note='Exploration level: the raise-site table fixes the CODE of every literal site but not the subcode inside class 3 (which 3/x for which malformation is left to C08 and to the fault sweep), says nothing about reachability, and leaves the four sites which forward a code undecided; the exception arms of Peer._run (which decide that exactly one NOTIFICATION is written) are covered by the fault sweep only. Cells where two classes apply (a malformed OPEN that is also out of place) accept either; an OPEN or an unnegotiated OPERATIONAL received in ESTABLISHED may be ignored (the session does not end). Closing without a NOTIFICATION when graceful restart is configured and announced by ExaBGP is taken as intended (RFC 4724) and not exercised. One genuine defect repaired (OPERATIONAL / type 252 ended the session silently).',
     ref='DESIGN.md §6 C10, §11.16',
     technique='bounded stand-in at the property level: fault injection in every session state of the real Peer over loopback TCP, oracle = RFC 4271 section 6 class table; ' + PYVC + ' on the header / OPEN / hold-timer classification shared with C06, C07, C12',
 )
